@@ -278,6 +278,13 @@ func RunCheck(spec *PropSpec, opts RunOpts) int {
 							inconc = append(inconc, fmt.Sprintf("ENGINE-MISMATCH: known finding %s model does not reproduce natively (%s %s)", c.KnownID, o.Result, o.Label))
 						}
 					default:
+						// monitor findings (lock discipline, package-level writes) are observations of the engine on a path;
+						// natively only the feasibility of that path can be confirmed: the harness must run through
+						if c.Kind == "monitor" && o.Result == "ok" {
+							validated++
+							confirmed = append(confirmed, c)
+							continue
+						}
 						if o.Result == "fail" || o.Result == "panic" || (c.KnownID != "" && contains(o.Known, c.KnownID)) {
 							validated++
 							confirmed = append(confirmed, c)
